@@ -162,8 +162,76 @@ class ExpZero(Harness):
         return entry_claims("exp0", outs[0], V.mat_eye(n)) + entry_claims("exp0dm", outs[1], V.mat_eye(n))
 
 
+class ExpCompose(Harness):
+    """exp((s+t) x) = exp(s x) exp(t x): generator xi = (v, n) with unit axis n, angles a = s|w|, b = t|w| on two
+    lattices, a + b by the addition formulas (tan of the quarter angle included, for the MRP chart)"""
+    timeout_ms = 120000
+
+    def __init__(self, gname):
+        self.gname = gname
+        self.fam = family(gname)
+        self.name = f"C02:compose:{gname}"
+        if self.fam != "SO3":
+            self.shards = 4
+
+    def _real(self, x1, x2, x3):
+        G = groups()[self.gname]
+        alg = algebra_of(self.fam)
+        return [alg.elem(x1).exp(G).to_Matrix(), alg.elem(x2).exp(G).to_Matrix(), alg.elem(x3).exp(G).to_Matrix()]
+
+    def build(self):
+        n = n_alg(self.fam)
+        self.sx = [ca.SX.sym(f"x{k}", n) for k in range(3)]
+        with SeriesStubs() as st:
+            outs = self._real(*self.sx)
+        self.st = st
+        ins = list(self.sx) + ([ca.vertcat(*st.coef_syms())] if st.calls else [])
+        return ca.Function(f"compose_{self.gname}", ins, [ca.SX(o) for o in outs])
+
+    def build_real(self):
+        n = n_alg(self.fam)
+        sx = [ca.SX.sym(f"x{k}", n) for k in range(3)]
+        return ca.Function("compose_real", sx, [ca.SX(o) for o in self._real(*sx)])
+
+    def make_ctx(self):
+        from ..oracles import Lattice, s2_chart
+        from ..enc import Angle
+        ctx = Ctx()
+        La = Lattice(ctx, "tha", "quarter")
+        Lb = Lattice(ctx, "thb", "quarter")
+        self.lats = [La, Lb]
+        A, B = La.A2, Lb.A2
+        sh = A.sin * B.cos + A.cos * B.sin
+        ch = A.cos * B.cos - A.sin * B.sin
+        tq = (La.tan4 + Lb.tan4) / (1 - La.tan4 * Lb.tan4)
+        th = La.th + Lb.th
+        ctx.angles += [Angle(th / 4, tan=tq, name="(a+b)/4"), Angle(th / 2, sin=sh, cos=ch, name="(a+b)/2"),
+                       Angle(th, sin=2 * sh * ch, cos=ch * ch - sh * sh, name="a+b")]
+        ctx.roots += [th, th / 2]
+        a_, b_ = Val.var("a"), Val.var("b")
+        n = s2_chart(a_, b_)
+        v = [Val.var(f"v{i}") for i in range(3)] if self.fam == "SE3" else []
+
+        def gen(angle):
+            return [angle * vi for vi in v] + [angle * n[i] for i in range(3)]
+        xs = [gen(La.th), gen(Lb.th), gen(th)]
+        ctx.aux = {}
+        coefs = self.st.bind(ctx, xs, self.sx)
+        return ctx, xs + ([coefs] if coefs else [])
+
+    def env_fix(self, env):
+        for L in self.lats:
+            L.concretize(env)
+
+    def claims(self, outs, ins, aux):
+        return entry_claims("compose", outs[2], V.mat_mul(outs[0], outs[1]))
+
+
 def all_harnesses(tier):
     hs = []
+    if tier == "thorough":
+        for g in ("SO3Quat", "SO3Dcm", "SO3Mrp", "SE3Quat"):
+            hs.append(ExpCompose(g))
     for g in GROUPS:
         hs.append(ExpStub(g, "expm"))
         hs.append(ExpZero(g))
